@@ -184,8 +184,8 @@ func c03r7(c *Check) {
 		EmitCut:     true,
 		BackEdgeMax: 2,
 		// the character class may be tested by a helper of the package (isWordByte(ch))
-		Inline: func(g *ssa.Function) bool { return fnPkg(g) == fnPkg(fn) && g != fn },
-		MaxPaths:    400000,
+		Inline:   func(g *ssa.Function) bool { return fnPkg(g) == fnPkg(fn) && g != fn },
+		MaxPaths: 400000,
 		ClassifyV: func(in ssa.Instruction, resolve func(ssa.Value) ssa.Value) []string {
 			switch x := in.(type) {
 			case *ssa.BinOp:
